@@ -53,8 +53,10 @@ def from_data_contract():
                     e = SObj(ParseError, {"detail": SStr(I.fresh("detail", S)) if I.branch_free() else None, "header": "", "data": None,
                                           "level": None})
                 else:
+                    tstr = z3.Function("type_string_of_body", Z.JV, S)       # two media types may well share one schema / type
                     prop = SOpaque("body property", attrs={"get_imports": SFunc("model", lambda I2, a, k: SOpaque("imports")),
-                                                           "get_lazy_imports": SFunc("model", lambda I2, a, k: SOpaque("lazy"))})
+                                                           "get_lazy_imports": SFunc("model", lambda I2, a, k: SOpaque("lazy")),
+                                                           "get_type_string": SFunc("model", lambda I2, a, k, t=v.t: SStr(tstr(t)))})
                     e = SOpaque("body", cls=object, attrs={"prop": prop})
                 e.term = v.t
                 made[k] = e
@@ -103,6 +105,9 @@ def from_data_contract():
             lists.append(l)
             return l
         I.empty_list_hook = new_list
+        # a set the function may make for itself (of strings): an abstract set, havocked by the loop rule like the lists
+        from pyvc.absdata import SymSet
+        I.empty_set_hook = lambda: SymSet("a set made by the function", S, lambda I2, v: I2.to_str_term(v))
         W.lists = lists
         has_id = I.branch_free()
         has_sum = I.branch_free()
